@@ -3,242 +3,187 @@ package vmerge
 
 import (
 	"fmt"
-	"math/rand"
 	"os"
-	"strings"
 
 	"verif/rig"
 	"verif/sqlrig"
 )
 
-// mergeCase is one generated three-way merge scenario on a single table with identical schemas on both sides.
-type mergeCase struct {
-	DB                 string
-	Base, Left, Right  *sqlrig.Table
-	Script             []string // every statement, logged before execution (the replay artefact)
-	LeftSQL, RightSQL  []string
-}
+// c29 — stage "merge": identical schemas on both sides. dolt_merge in both directions vs the cell-wise model.
+func c29(c *rig.Ctx) { c29run(c, false) }
 
-// genMergeCase builds base/left/right models and the SQL that produces them. Both sides edit a shared small key
-// pool so that convergent edits, cell-wise combinable edits, same-cell divergences, delete-vs-modify and
-// delete-vs-delete all occur.
-func genMergeCase(r *rand.Rand, db string, maxRows int) *mergeCase {
-	g := sqlrig.NewGen(r, "v")
-	ncols := 1 + r.Intn(5)
-	base := g.NewTable("t", ncols)
-	mc := &mergeCase{DB: db}
-	nbase := r.Intn(maxRows + 1)
-	pool := nbase + 4
-	for i := 0; i < nbase; i++ {
-		pk := int64(r.Intn(pool))
-		if _, ok := base.Rows[pk]; ok {
-			continue
-		}
-		mc.Script = append(mc.Script, g.InsertSQL(base, pk))
-	}
-	mc.Base = base.Clone()
-	left, right := base.Clone(), base.Clone()
-	nl, nr := 1+r.Intn(8+nbase/3), 1+r.Intn(8+nbase/3)
-	editPool := pool
-	if editPool > 12 && r.Intn(2) == 0 {
-		editPool = 12 // concentrate edits so that both sides touch the same rows
-	}
-	for i := 0; i < nl; i++ {
-		mc.LeftSQL = append(mc.LeftSQL, g.DML(left, editPool))
-	}
-	for i := 0; i < nr; i++ {
-		if r.Intn(5) == 0 && len(mc.LeftSQL) > 0 {
-			// convergent edit: replay one of the left statements verbatim on the right when it applies identically
-			st := mc.LeftSQL[r.Intn(len(mc.LeftSQL))]
-			if applyVerbatim(right, left, st) {
-				mc.RightSQL = append(mc.RightSQL, st)
-				continue
-			}
-		}
-		mc.RightSQL = append(mc.RightSQL, g.DML(right, editPool))
-	}
-	mc.Left, mc.Right = left, right
-	return mc
-}
+// c29schema — stage "schema": one side additionally applies 1-2 schema changes (ADD COLUMN first/middle/last with or
+// without default, DROP COLUMN, reorder, widening) interleaved with its row edits.
+func c29schema(c *rig.Ctx) { c29run(c, true) }
 
-// applyVerbatim applies a left-side single-row insert/delete statement to the right model when that is
-// well-defined (used to create identical changes on both sides). Only inserts of absent keys and deletes of
-// present keys are replayed; the resulting row is copied from the left model's final state only if the left row
-// was not changed again afterwards — otherwise the statement is skipped.
-func applyVerbatim(right, left *sqlrig.Table, st string) bool {
-	var pk int64
-	if strings.HasPrefix(st, "delete from") {
-		if _, err := fmt.Sscanf(st[strings.Index(st, "pk = ")+5:], "%d", &pk); err != nil {
-			return false
-		}
-		if _, ok := right.Rows[pk]; !ok {
-			return false
-		}
-		delete(right.Rows, pk)
-		return true
+func c29run(c *rig.Ctx, schema bool) {
+	stage, prefix := "merge", "c29/merge"
+	if schema {
+		stage, prefix = "schema", "c29/schema"
 	}
-	return false
-}
-
-func c29(c *rig.Ctx) {
-	c.Rule("seeded (base,left,right) single-table scenarios (1-5 non-key columns, 0..N base rows, both sides edit a shared " +
-		"small key pool with unique cell values); dolt_merge is run in both directions over the wire on a real sql-server and " +
-		"the merged table and dolt_conflicts_t are compared with the cell-wise three-way model. A case is distinct/non-trivial " +
-		"when its (columns, #left edits, #right edits, #model conflicts, #cell-wise merged rows) signature is new and both sides changed something")
-	c.Assume("schemas identical on both sides in this stage; one-sided schema changes are a separate stage")
-	dir := c.TempDir("c29")
+	c.Rule("seeded (base,left,right) single-table scenarios: 1-6 non-key columns of mixed types (int, bigint, decimal, datetime, varchar with " +
+		"collations, json; nullable / NOT NULL with defaults), 0..200 base rows; per key a planned edit class (cell-wise combinable, same cell " +
+		"same value, same cell different values, convergent update/insert/delete, delete-vs-modify, delete-vs-no-op rewrite, update-then-revert, " +
+		"delete+reinsert, divergent inserts) plus unstructured DML over a small shared key pool; stage `schema` adds 1-2 one-sided schema changes " +
+		"(ADD COLUMN first/middle/last with/without default, DROP COLUMN, MODIFY..AFTER/FIRST, VARCHAR and INT widening) at random points of that " +
+		"side's script. dolt_merge runs over the wire in both directions on scratch branches; merged rows (by column name), merged column set, " +
+		"dolt_conflicts / dolt_conflicts_t rows and diff types are compared with the cell-wise three-way model, and the two directions with " +
+		"each other. A case is distinct/non-trivial when its (columns, base rows, planned classes, schema ops) signature is new and both sides changed something")
+	c.Assume("keys whose outcome the statement leaves undefined (a cell modified on one side in a column dropped on the other) are only checked for absence of internal failure")
+	c.Assume("a clean user-level refusal of a schema-changing merge (schema conflict reported through dolt_schema_conflicts, or an error carrying dolt's schema-conflict wording) is not a violation; it is counted per schema operation. Any other error of dolt_merge is a violation")
+	c.Assume("JSON cells are compared as printed; dolt_dont_merge_json=1 (JSON auto-merge is C17's subject)")
+	dir := c.TempDir("c29" + stage)
 	defer os.RemoveAll(dir)
 	srv, err := sqlrig.Start(dir + "/data")
 	rig.Must(err)
 	defer srv.Stop()
+	l := newLimiter(c)
 	n := c.Pick(100, 3000)
-	var conflictsSeen, cellwise, cleanMerges int
-	for i := 0; i < n; i++ {
-		r := c.SubRand("c29", i)
-		maxRows := []int{3, 10, 40, 200}[r.Intn(4)]
-		mc := genMergeCase(r, fmt.Sprintf("c29_%d", i), maxRows)
-		c.Case(fmt.Sprintf("c29/%d", i), map[string]any{"db": mc.DB, "create": mc.Base.CreateSQL(), "base": mc.Script, "left": mc.LeftSQL, "right": mc.RightSQL})
-		nc, cw, ok := runMergeCase(c, srv, mc)
-		if !ok {
-			continue
+	cnt := newCounters()
+	forCases(srv, n, 8, []string{"set @@dolt_dont_merge_json = 1"}, l.tooMany, func(i int, x *sqlrig.Session) {
+		r := c.SubRand("c29"+stage, i)
+		opts := scenarioOpts{
+			MaxRows: []int{3, 10, 40, 200}[r.Intn(4)], NCols: 1 + r.Intn(6), NullableOnly: r.Intn(3) == 0, JSON: r.Intn(3) == 0,
+			Schema: schema, ConflictBias: []float64{0.05, 0.2, 0.4}[r.Intn(3)], RandomDML: 6, Name: "t",
 		}
-		conflictsSeen += nc
-		cellwise += cw
-		if nc == 0 {
-			cleanMerges++
-		}
-		c.Distinct(fmt.Sprintf("%d/%d/%d/%d/%d", len(mc.Base.Cols), len(mc.LeftSQL), len(mc.RightSQL), nc, cw))
-		c.Sample(map[string]any{"create": mc.Base.CreateSQL(), "base_rows": len(mc.Base.Rows), "left": mc.LeftSQL, "right": mc.RightSQL, "model_conflicts": nc, "cellwise_merged_rows": cw})
-		if c.Violations() > 10 {
-			break
-		}
-	}
-	c.Count("c29.model_conflicts", conflictsSeen)
-	c.Count("c29.cellwise_merged_rows", cellwise)
-	c.Count("c29.clean_merges", cleanMerges)
-	c.Require(conflictsSeen > 0, "no merge produced a conflict")
-	c.Require(cellwise > 0, "no merge combined cells from both sides")
-}
-
-func execAll(x *sqlrig.Session, stmts ...string) error {
-	for _, s := range stmts {
-		if err := x.Exec(s); err != nil {
-			return fmt.Errorf("%s: %w", s, err)
-		}
-	}
-	return nil
-}
-
-// runMergeCase executes the scenario and checks both merge directions. Returns (#model conflicts, #cell-wise merged rows).
-func runMergeCase(c *rig.Ctx, srv *sqlrig.Server, mc *mergeCase) (int, int, bool) {
-	x := srv.MustOpen("")
-	defer x.Close()
-	setup := []string{"create database " + mc.DB, "use " + mc.DB, mc.Base.CreateSQL()}
-	setup = append(setup, mc.Script...)
-	setup = append(setup, "call dolt_commit('-Am','base')", "call dolt_branch('other')")
-	setup = append(setup, mc.LeftSQL...)
-	setup = append(setup, "call dolt_commit('-Am','left')", "call dolt_checkout('other')")
-	setup = append(setup, mc.RightSQL...)
-	setup = append(setup, "call dolt_commit('--allow-empty','-Am','right')", "call dolt_checkout('main')")
-	if err := execAll(x, setup...); err != nil {
-		if strings.Contains(err.Error(), "nothing to commit") {
-			return 0, 0, false // left side made no net change: not a merge scenario
-		}
-		c.Violation("c29/setup", "scenario setup failed: "+err.Error(), nil)
-		return 0, 0, false
-	}
-	defer x.Exec("drop database " + mc.DB)
-	wantLR, confLR := sqlrig.Merge3(mc.Base, mc.Left, mc.Right)
-	wantRL, confRL := sqlrig.Merge3(mc.Base, mc.Right, mc.Left)
-	cw := 0
-	for pk, row := range wantLR.Rows {
-		l, r := mc.Left.Rows[pk], mc.Right.Rows[pk]
-		if l != nil && r != nil && strings.Join(row, "\x1f") != strings.Join(l, "\x1f") && strings.Join(row, "\x1f") != strings.Join(r, "\x1f") {
-			cw++
-		}
-	}
-	checkDir := func(dir, into, from string, want *sqlrig.Table, conf []sqlrig.Conflict) {
-		if err := execAll(x, "call dolt_checkout('"+into+"')", "set autocommit = 0", "start transaction"); err != nil {
-			c.Violation("c29/setup", err.Error(), nil)
+		sc := genScenario(r, opts)
+		db := fmt.Sprintf("c29%s_%d", stage[:1], i)
+		c.Case(fmt.Sprintf("c29/%s/%d", stage, i), sc.payload(db))
+		defer func() {
+			x.Exec("use mysql")
+			if err := x.Exec("drop database `" + db + "`"); err != nil {
+				c.Note("drop database: " + err.Error())
+			}
+		}()
+		if err := setupScenario(x, db, sc); err != nil {
+			l.violation(prefix+"/setup", "scenario setup failed: "+err.Error(), sc.payload(db))
 			return
 		}
-		_, err := x.Query("call dolt_merge('" + from + "')")
-		if err != nil {
-			key := "c29/merge-error/" + dir
-			if sqlrig.IsInternalError(err) {
-				key = "c29/merge-internal-error/" + dir
+		mLR := modelMerge(sc.Base, sc.Left, sc.Right)
+		mRL := modelMerge(sc.Base, sc.Right, sc.Left)
+		wit := sc.payload(db)
+		label := func(ours string) string {
+			if !schema {
+				return ""
 			}
-			c.Violation(key, "dolt_merge on identical schemas failed: "+err.Error(), nil)
-			x.Exec("rollback")
-			return
-		}
-		got, err := x.Query("select * from t")
-		if err != nil {
-			c.Violation("c29/read-after-merge", err.Error(), nil)
-		} else if g, w := strings.Join(got.Sorted(), "\n"), strings.Join(want.SortedRows(), "\n"); g != w {
-			c.Violation("c29/merged-rows/"+dir, fmt.Sprintf("merged table differs from the cell-wise three-way model (%d vs %d rows)", len(got.Data), len(want.Rows)),
-				map[string]any{"got": got.Sorted(), "want": want.SortedRows()})
-		}
-		// conflicts
-		var cols []string
-		for _, p := range []string{"base_", "our_", "their_"} {
-			cols = append(cols, p+"pk")
-			for _, col := range mc.Base.Cols {
-				cols = append(cols, p+col.Name)
+			if sc.SchemaSide == ours {
+				return "ours=schema-side"
 			}
+			return "theirs=schema-side"
 		}
-		var wantConf []string
-		for _, cf := range conf {
-			var parts []string
-			for _, row := range [][]string{cf.Base, cf.Ours, cf.Theirs} {
-				if row == nil {
-					parts = append(parts, sqlrig.Null)
-					for range mc.Base.Cols {
-						parts = append(parts, sqlrig.Null)
-					}
-				} else {
-					parts = append(parts, fmt.Sprint(cf.PK))
-					parts = append(parts, row...)
+		refused := func(why string) {
+			cnt.add("refused", 1)
+			for _, op := range sc.SchemaOps {
+				cnt.add("refused."+op, 1)
+			}
+			c.Note("refusal: " + truncate(why, 160))
+		}
+		results := map[string]*dirResult{}
+		for _, d := range []struct {
+			name, into, from, ours string
+			m                      *mergeOut
+		}{{"left<-right", "ml", "other", "left", mLR}, {"right<-left", "mr", "main", "right", mRL}} {
+			res, err := mergeDirection(x, db, "t", d.into, d.from, d.m, "")
+			if err != nil {
+				l.violation(prefix+"/read-after-merge", d.name+": "+err.Error(), wit)
+				continue
+			}
+			w := map[string]any{"direction": d.name, "scenario": wit}
+			suffix := ""
+			if lb := label(d.ours); lb != "" {
+				suffix = "/" + lb
+			}
+			switch {
+			case res.Err != nil:
+				kind, sig := classifyMergeError(res.Err)
+				w["error"] = truncate(res.Err.Error(), 3000)
+				switch {
+				case kind == "internal-error":
+					l.violation(prefix+"/internal-error/"+sig+suffix, "dolt_merge failed internally: "+truncate(res.Err.Error(), 300), w)
+					cnt.add("internal_errors", 1)
+				case kind == "refused" && schema:
+					refused(res.Err.Error())
+				default:
+					// neither a schema-conflict refusal nor an internal failure: the merge of compatible schemas simply failed
+					l.violation(prefix+"/"+kind+"/"+sig+suffix, "dolt_merge failed: "+truncate(res.Err.Error(), 300), w)
+					cnt.add("merge_errors", 1)
+				}
+			case res.Refused != "" && !schema:
+				l.violation(prefix+"/refused", "dolt_merge on identical schemas reported "+res.Refused, w)
+			case res.Refused != "":
+				refused(res.Refused)
+			default:
+				compareDirection(l, prefix, label(d.ours), sc, d.m, res, w)
+				results[d.name] = res
+				cnt.add("merges_compared", 1)
+				if len(res.MergeRow) > 1 && res.MergeRow[1] == "1" {
+					cnt.add("fast_forwards", 1)
 				}
 			}
-			wantConf = append(wantConf, strings.Join(parts, "\x1f"))
 		}
-		sortStrings(wantConf)
-		if len(conf) == 0 {
-			n, err := x.Scalar("select count(*) from dolt_conflicts")
-			if err != nil || n != "0" {
-				c.Violation("c29/conflicts/"+dir, fmt.Sprintf("model has no conflict but dolt_conflicts reports %s tables (%v)", n, err), nil)
-			}
-		} else {
-			gc, err := x.Query("select " + strings.Join(cols, ", ") + " from dolt_conflicts_t")
-			if err != nil {
-				c.Violation("c29/conflicts/"+dir, "cannot read dolt_conflicts_t although the model predicts conflicts: "+err.Error(), map[string]any{"want": wantConf})
-			} else if g, w := strings.Join(gc.Sorted(), "\n"), strings.Join(wantConf, "\n"); g != w {
-				c.Violation("c29/conflicts/"+dir, "dolt_conflicts_t differs from the model conflict set", map[string]any{"got": gc.Sorted(), "want": wantConf})
-			}
+		if lr, rl := results["left<-right"], results["right<-left"]; lr != nil && rl != nil {
+			compareSymmetry(l, prefix, sc, mLR, mRL, lr, rl, wit)
+			cnt.add("direction_pairs_compared", 1)
 		}
-		if err := execAll(x, "rollback", "set autocommit = 1"); err != nil {
-			c.Violation("c29/rollback", err.Error(), nil)
+		if len(mLR.Conflicts) != len(mRL.Conflicts) {
+			l.violation(prefix+"/model-asymmetry", "model bug: conflict sets not mirrored", wit)
+		}
+		cnt.add("model_conflicts", len(mLR.Conflicts))
+		cnt.add("cellwise_merged_rows", mLR.Cellwise)
+		cnt.add("convergent_changes", mLR.Convergent)
+		cnt.add("delete_vs_modify_conflicts", mLR.DeleteModify)
+		cnt.add("unspecified_rows", len(mLR.Unspec))
+		cnt.add("delete_vs_added_column_update", len(mLR.AddedColVsDelete))
+		if len(mLR.Conflicts) == 0 {
+			cnt.add("clean_merges", 1)
+		}
+		for _, op := range sc.SchemaOps {
+			cnt.add("op."+op, 1)
+		}
+		if len(sc.LeftSQL) > 0 && len(sc.RightSQL) > 0 {
+			c.Distinct(stage + "/" + sc.signature())
+		}
+		c.Sample(map[string]any{"stage": stage, "create": sc.Base.createSQL(), "base_rows": len(sc.Base.Rows), "left": head(sc.LeftSQL, 12), "right": head(sc.RightSQL, 12),
+			"schema_side": sc.SchemaSide, "schema_ops": sc.SchemaOps, "model_conflicts": len(mLR.Conflicts), "cellwise_merged_rows": mLR.Cellwise})
+	})
+	pre := "c29."
+	if schema {
+		pre = "c29.schema."
+	}
+	cnt.add("suppressed_repeat_violations", l.suppressedCount())
+	cnt.flush(c, pre)
+	c.Require(cnt.get("model_conflicts") > 0, stage+": no merge produced a conflict")
+	c.Require(cnt.get("cellwise_merged_rows") > 0, stage+": no merge combined cells from both sides")
+	c.Require(cnt.get("delete_vs_modify_conflicts") > 0, stage+": no delete-vs-modify conflict")
+	c.Require(cnt.get("convergent_changes") > 0, stage+": no convergent change")
+	c.Require(cnt.get("merges_compared") > 0, stage+": no merge result was compared with the model")
+	if schema {
+		for _, op := range []string{"add-first", "add-middle", "add-last", "drop", "reorder", "widen-varchar"} {
+			c.Require(cnt.sumPrefix("op."+op) > 0, "schema: no scenario applied "+op)
 		}
 	}
-	checkDir("ours=left", "main", "other", wantLR, confLR)
-	checkDir("ours=right", "other", "main", wantRL, confRL)
-	// mirrored conflicts / same data unless conflicting
-	if len(confLR) != len(confRL) {
-		c.Violation("c29/model-asymmetry", "model bug: conflict sets not mirrored", nil)
-	}
-	return len(confLR), cw, true
 }
 
-func sortStrings(s []string) {
-	for i := 1; i < len(s); i++ {
-		for j := i; j > 0 && s[j] < s[j-1]; j-- {
-			s[j], s[j-1] = s[j-1], s[j]
-		}
+func truncate(s string, n int) string {
+	if len(s) > n {
+		return s[:n] + "..."
 	}
+	return s
+}
+
+func head(s []string, n int) []string {
+	if len(s) > n {
+		return append(append([]string(nil), s[:n]...), fmt.Sprintf("... (%d statements)", len(s)))
+	}
+	return s
 }
 
 // Register wires the vmerge checks.
 func Register() {
-	rig.Register(&rig.Spec{Prop: "C29", Level: "exploration", Stages: []rig.Stage{{Name: "merge", Fn: c29}}})
+	rig.Register(&rig.Spec{Prop: "C29", Level: "exploration", Stages: []rig.Stage{
+		{Name: "merge", Fn: c29},
+		{Name: "schema", Fn: c29schema},
+	}})
+	rig.Register(&rig.Spec{Prop: "C30", Level: "exploration", Stages: []rig.Stage{{Name: "twins", Fn: c30}}})
+	rig.Register(&rig.Spec{Prop: "C43", Level: "exploration", Stages: []rig.Stage{{Name: "resolve", Fn: c43}}})
 }
